@@ -64,17 +64,26 @@ func (s *verifPipeState) step(out *OutputCollector) error {
 		}
 		return b
 	}
+	// Emit takes ownership only when it accepts the batch; a refused batch stays the caller's
+	emit := func() error {
+		b := mk()
+		err := out.Emit(b)
+		if err != nil {
+			b.Release()
+		}
+		return err
+	}
 	switch k {
 	case verifTurnEmit:
-		return out.Emit(mk())
+		return emit()
 	case verifTurnLogEmit:
 		out.ClientLog(LogInfo, "turn log")
-		return out.Emit(mk())
+		return emit()
 	case verifTurnNoEmit:
 		return nil
 	case verifTurnDoubleEmit:
-		_ = out.Emit(mk())
-		return out.Emit(mk())
+		_ = emit()
+		return emit()
 	case verifTurnFinish:
 		s.finishErr = out.Finish()
 		return s.finishErr
@@ -83,7 +92,7 @@ func (s *verifPipeState) step(out *OutputCollector) error {
 	case verifTurnPanic:
 		panic("turn panicked")
 	default:
-		_ = out.Emit(mk())
+		_ = emit()
 		s.finishErr = out.Finish()
 		return s.finishErr
 	}
